@@ -1,7 +1,7 @@
 """All contracts, by name."""
-from . import symbolic_nodes, negation, quantifiers, mappings, toplevel, cache, required, predicate_form
+from . import symbolic_nodes, negation, quantifiers, mappings, toplevel, cache, required, predicate_form, hashed
 
-MODULES = [symbolic_nodes, negation, quantifiers, mappings, toplevel, cache, required, predicate_form]
+MODULES = [symbolic_nodes, negation, quantifiers, mappings, toplevel, cache, required, predicate_form, hashed]
 
 
 def all_contracts():
@@ -78,6 +78,18 @@ CLAIMS = {
                 note="constructor arguments of inferred variables (C11) are outside this check; T1, T3 tree-shape assumptions"),
 }
 CLAIMS.update({
+    'C07': dict(level=P, text="(i) An.evaluate is a generator function and its first statement that does any work runs inside "
+                "the first next(); (ii) HashedIterable.__iter__ replays the memo, then pulls the user's iterator one element "
+                "per loop iteration, memoises each element before yielding it, yields it exactly once and skips an element "
+                "only when it is already memoised; set_iterable / __post_init__ store a generator expression over the "
+                "supplied iterable (nothing is consumed); extract_selected_variable_and_expression wraps the domain in a lazy "
+                "filter; (iii) every evaluator on the single-variable path consumes callee streams only through for-loops "
+                "that yield inside the iteration that found the row (clause L is structural in the executor: a materialising "
+                "consumer of a stream is reported), and QueryObjectDescriptor no longer combines selected expressions with "
+                "itertools.product.",
+                note="'exactly the prefix ending at the k-th qualifying element' is the composition of these facts along the "
+                     "operator chain (A9); the one-shot-iterator stand-in measures it natively (bounded); generator "
+                     "expressions / filter are lazy (A6)"),
     'C13': dict(level=P, text="update_domain_and_kwargs_from_args: for every argument layout (domain given or not, 0..2 positional "
                 "fields, pre-existing keywords) the j-th positional field binds the j-th constructor parameter, keywords are "
                 "kept, a domain that is not first is rejected. extract_selected_variable_and_expression: an iterable domain is "
@@ -140,6 +152,8 @@ ORACLES = {
             _oracle('predicates inside a sub-query used as a domain, under each ambient mode', 60, 800, kind='domain_subquery')],
     'C15': [_oracle('an(entity) sub-query as a condition, and/or', 150, 2000, kind='subquery'),
             _oracle('the(entity) as a comparison operand, correlated with the enclosing query', 100, 1500, kind='the_operand')],
+    'C07': [_oracle('one-shot iterator domains: pulls per result, nothing pulled twice (cache on)', 200, 3000, kind='lazy'),
+            _oracle('one-shot iterator domains (cache off)', 100, 1500, kind='lazy', caching=False)],
     'C13': [_oracle('predicate form vs explicit query, mixed-type domains, positional and keyword fields', 250, 4000, kind='predform', allow_empty=True)],
     'C04': [_oracle('histories of full / partial / aborted evaluations (result cache on)', 200, 3000, kind='history'),
             _oracle('histories (result cache off)', 100, 1500, kind='history', caching=False),
